@@ -304,6 +304,8 @@ def run(m: Model, r: Report, tier: str) -> None:
                   "equality of each echo atom (no `or`, inverted comparison or early accept)", floor=30)
     r.rule("R13", "matches() predicates are conjunctions; request/response comparisons are equalities where they accept and inequalities where they refuse", floor=20)
     r.rule("R14", "parsing and matching are functions of the (request, reply) pair: no codec / matching function writes class- or module-level state", floor=1)
+    r.rule("R15", "every well-formed request re-parses as a typed request (length envelope covers the ISO envelope), so that replies are matched "
+                  "with the typed matcher and not by service id only", floor=35)
     rule_r14(m, r)
     r.rule("R10", "the response parser admits every ISO-minimal genuine reply (length envelope, no index beyond the checked length)", floor=34)
 
@@ -658,6 +660,9 @@ def run(m: Model, r: Report, tier: str) -> None:
             r.check(long_enough, "R5", f"UDSIsoServicesEchoLength[{sid:#x}]~{p.response.name}",
                     f"echo length {n} exceeds what request ({pr_req}) and response ({pr_resp}) layouts of this service carry", loc=f.loc)
 
+    from sa.codec import request_envelope_rule
+    request_envelope_rule(m, r, "R15", reg, "parse_pdu re-parses request.pdu; a request that fails its own length gate degrades to RawRequest and every positive reply of "
+                          "the service is accepted, whatever identifier / counter it echoes")
     # ---------------------------------------------------------------- R6
     pp = m.require_function(f"{HELPERS}.parse_pdu")
     body = pp.node.body
